@@ -139,3 +139,25 @@ package tls
 //@   requires hs != nil
 //@   ensures ekm_at_server_finished: ret == nil ==> called(exportKeyingMaterial, 0)
 //@   at before call exportKeyingMaterial#0: assert ekm_inputs: arg1 == hs.masterSecret && arg2 == hs.transcript
+
+// C14, fresh handshakes: the server's chain goes through verifyServerCertificate (verif_contracts_vers.go: what is
+// verified against what) on every successful path that is not a resumption (TLS 1.3: not PSK; TLS 1.2: first
+// handshake of the connection), with the certificates of the received message.
+//@ func (*clientHandshakeStateTLS13).readServerCertificate
+//@   property C14
+//@   unchecked safety pre
+//@   note unchecked: thin contract (control flow and call arguments only)
+//@   requires hs != nil
+//@   ensures verified13: ret == nil && !old(hs.usingPSK) ==> called(verifyServerCertificate, 0) && callres(verifyServerCertificate, 0) == nil
+//@   at before call verifyServerCertificate#0: assert chain_of_message: arg1 == certMsg.certificate.Certificate
+
+//@ func (*clientHandshakeState).doFullHandshake
+//@   property C14
+//@   unchecked safety pre
+//@   note unchecked: thin contract (control flow and call arguments only)
+//@   requires hs != nil && hs.c != nil
+//@   ensures verified12: ret == nil ==> (called(verifyServerCertificate, 0) && callres(verifyServerCertificate, 0) == nil) || called(bytes.Equal, 0)
+//@   note verified12: a successful full handshake either verified the chain or is a renegotiation (c.handshakes != 0 when the certificate message was processed) whose leaf was compared with the one verified before (bytes.Equal)
+//@   at before call verifyServerCertificate#0: assert first_handshake: arg0.handshakes == 0
+//@   at before call bytes.Equal#0: assert renegotiation_only: called(bytes.Equal, 0) ==> !called(verifyServerCertificate, 0)
+//@   at before call verifyServerCertificate#0: assert chain_of_message12: arg1 == certMsg.certificates
